@@ -455,7 +455,7 @@ theorem C14_set_data_truncate (L : LasCurves) (rows : List (List Cell)) (names :
       split
       · rw [assignAll_length]; simp [cvMapIdx_length]
       · simp [cvMapIdx_length]
-    · exact assignAll_length _
+    · rfl
   refine ⟨e, hl, fun h => ?_⟩
   have hw : (L.setData rows names true).1.WF := C14_wf_step L h (.setData rows names true)
   rw [abs_length _ hw, abs_length L h]
